@@ -4,7 +4,10 @@ import (
 	"crypto/sha256"
 	"encoding/binary"
 	"errors"
+	"fmt"
 	"math/big"
+	"path/filepath"
+	"runtime"
 	"sort"
 	"strings"
 	"testing"
@@ -74,9 +77,30 @@ func deriveAccts(seed uint64) []*acct {
 	return out
 }
 
+// setupFailure: a set-up call of the REAL code (building chains, clients, packets to be received, proofs) failed.
+// It is reported by main as a HARNESS-SETUP-ERROR line naming the call — not as a raw panic.
+type setupFailure struct {
+	call string
+	err  error
+}
+
+func (f setupFailure) Error() string { return f.call + ": " + f.err.Error() }
+
+// must: the enclosing harness function and line name the call
 func must(err error) {
 	if err != nil {
-		panic(err)
+		call := "?"
+		if pc, file, line, ok := runtime.Caller(1); ok {
+			call = fmt.Sprintf("%s (%s:%d)", runtime.FuncForPC(pc).Name(), filepath.Base(file), line)
+		}
+		panic(setupFailure{call, err})
+	}
+}
+
+// mustCall: set-up call with an explicit name of the real function that failed
+func mustCall(call string, err error) {
+	if err != nil {
+		panic(setupFailure{call, err})
 	}
 }
 
@@ -90,7 +114,7 @@ func NewWorld(seed uint64, tss []TSSSpec) *World {
 	w.coord.SetupClientsWithoutRelayer(path)
 	w.accts = deriveAccts(seed)
 	for _, a := range w.accts {
-		must(w.A.App.BankKeeper.SendCoins(w.A.GetContext(), w.A.SenderAcc, a.addr, sdk.NewCoins(sdk.NewInt64Coin("stake", 1000000))))
+		mustCall("BankKeeper.SendCoins(funding a harness account)", w.A.App.BankKeeper.SendCoins(w.A.GetContext(), w.A.SenderAcc, a.addr, sdk.NewCoins(sdk.NewInt64Coin("stake", 1000000))))
 	}
 	w.gov = xibcclient.NewClientProposalHandler(w.A.App.XIBCKeeper.ClientKeeper)
 	w.universe = []string{w.B.ChainID, "ghost-net"}
@@ -100,10 +124,17 @@ func NewWorld(seed uint64, tss []TSSSpec) *World {
 			name = w.A.ChainID
 		}
 		cs := &tsstypes.ClientState{TssAddress: w.accts[t.Acct].str(t.Upper)}
-		cp, err := clienttypes.NewCreateClientProposal("t", "d", name, cs, &tsstypes.ConsensusState{})
-		must(err)
-		must(cp.ValidateBasic())
-		must(w.gov(w.A.GetContext(), cp))
+		if t.Name == "@self" {
+			// A client under the chain's OWN name: since /repo a9e74e1 the CreateClient proposal refuses it, so it can
+			// only come from an imported genesis file (client.InitGenesis stores every genesis client without looking at
+			// the native chain name; GenesisState.Validate does not compare them either).  Same keeper call as InitGenesis'.
+			w.A.App.XIBCKeeper.ClientKeeper.SetClientState(w.A.GetContext(), name, cs)
+		} else {
+			cp, err := clienttypes.NewCreateClientProposal("t", "d", name, cs, &tsstypes.ConsensusState{})
+			mustCall("clienttypes.NewCreateClientProposal("+name+")", err)
+			mustCall("CreateClientProposal.ValidateBasic("+name+")", cp.ValidateBasic())
+			mustCall("client proposal handler: HandleCreateClient("+name+")", w.gov(w.A.GetContext(), cp))
+		}
 		w.universe = append(w.universe, name)
 		// a send sequence so that packets can be sent to the TSS chain
 		w.A.App.XIBCKeeper.PacketKeeper.SetNextSequenceSend(w.A.GetContext(), w.A.ChainID, name, 1)
